@@ -14,6 +14,17 @@ from sievelib import parser as sl_parser  # noqa: E402
 Command = sl_commands.Command
 
 
+class RedirectxCommand(sl_commands.RedirectCommand):
+    """A custom command registered in every worker of every parser check: its class derives
+    from a stock command's class and extends its definition (state cached per class must not
+    leak along the inheritance chain)."""
+    args_definition = list(sl_commands.RedirectCommand.args_definition) + [
+        {"name": "note", "type": ["string"], "required": True}]
+
+
+sl_commands.add_commands(RedirectxCommand)
+
+
 SLOW = {"first": 0, "confirmed": 0}
 
 
